@@ -825,6 +825,63 @@ fn hold_iter<K: Key + 'static, V: Value + 'static>(
     }
 }
 
+/// the values of one multimap key, kept beyond the read transaction (borrowed-'static or owned form)
+fn hold_mvalues<K: Key + 'static, V: Key + 'static>(
+    rt: &ReadTransaction, cx: &Ctx, n: &str, kt: &str, vt: &str, op: &J, owned: bool,
+) -> Result<Box<dyn HeldIter>, redb::Error> {
+    let def: MultimapTableDefinition<K, V> = MultimapTableDefinition::new(n);
+    let t = rt.open_multimap_table(def)?;
+    let kbuf = cx.key_bytes(kt, op["k"].as_u64().unwrap() as u32);
+    if owned {
+        let it = t.get_owned(K::from_bytes(&kbuf))?;
+        Ok(Box::new(HeldMValues::<V, _> { it, vt: vt.to_string(), _p: std::marker::PhantomData }))
+    } else {
+        let it = t.get(K::from_bytes(&kbuf))?;
+        Ok(Box::new(HeldMValues::<V, _> { it, vt: vt.to_string(), _p: std::marker::PhantomData }))
+    }
+}
+
+struct HeldMValues<V: Key + 'static, I> {
+    it: I,
+    vt: String,
+    _p: std::marker::PhantomData<V>,
+}
+
+/// a guard of either form: the bytes of the value it guards
+trait ValueBytes<V: Key + 'static> {
+    fn bytes(&self) -> Vec<u8>;
+}
+impl<V: Key + 'static> ValueBytes<V> for redb::AccessGuard<'static, V> {
+    fn bytes(&self) -> Vec<u8> {
+        V::as_bytes(&self.value()).as_ref().to_vec()
+    }
+}
+impl<V: Key + 'static> ValueBytes<V> for redb::OwnedAccessGuard<V> {
+    fn bytes(&self) -> Vec<u8> {
+        V::as_bytes(&self.value()).as_ref().to_vec()
+    }
+}
+
+impl<V: Key + 'static, G: ValueBytes<V>, I> HeldIter for HeldMValues<V, I>
+where
+    I: DoubleEndedIterator<Item = Result<G, redb::StorageError>>,
+{
+    fn next_n(&mut self, cx: &Ctx, cnt: u64, rev: bool) -> J {
+        let mut out = vec![];
+        for _ in 0..cnt {
+            let item = if rev { self.it.next_back() } else { self.it.next() };
+            match item {
+                None => break,
+                Some(x) => {
+                    let g = tr!(x);
+                    out.push(json!(cx.key_index(&self.vt, &g.bytes())));
+                }
+            }
+        }
+        ok(J::Array(out))
+    }
+}
+
 struct HeldOwned<K: Key + 'static, V: Value + 'static> {
     it: redb::OwnedRange<K, V>,
     kt: String,
@@ -1035,8 +1092,8 @@ impl Exec {
             }
             "br" => self.db.is_some() && !self.readers.contains_key(s("h")),
             "dr" => self.readers.contains_key(s("h")),
-            "dump" | "hold" | "uhold" => self.readers.contains_key(s("src")),
-            "itnext" => self.its.contains_key(s("it")),
+            "dump" | "hold" | "uhold" | "mhold" => self.readers.contains_key(s("src")),
+            "itnext" | "mitnext" => self.its.contains_key(s("it")),
             "itdrop" => self.its.contains_key(s("it")) || self.uts.contains_key(s("it")),
             "ustats" => self.uts.contains_key(s("it")),
             "spdrop" => self.sps.contains_key(s("s")),
@@ -1313,6 +1370,26 @@ impl Exec {
                     }
                     Err(e) => er(e),
                 };
+                Self::with_r(op, r)
+            }
+            "mhold" => {
+                let n = op["n"].as_str().unwrap();
+                let src = op["src"].as_str().unwrap();
+                let (kt, vt) = (op["kt"].as_str().unwrap(), op["vt"].as_str().unwrap());
+                let owned = op.get("owned").and_then(|b| b.as_bool()).unwrap_or(false);
+                let rt = &self.readers[src];
+                let r = match dispatch_m!(kt, vt, hold_mvalues(rt, &self.cx, n, kt, vt, op, owned)) {
+                    Ok(it) => {
+                        self.its.insert(op["it"].as_str().unwrap().to_string(), it);
+                        ok(json!(0))
+                    }
+                    Err(e) => er(e),
+                };
+                Self::with_r(op, r)
+            }
+            "mitnext" => {
+                let it = self.its.get_mut(op["it"].as_str().unwrap()).expect("HARNESS: unknown iterator");
+                let r = it.next_n(&self.cx, op["cnt"].as_u64().unwrap(), op["rev"].as_bool().unwrap());
                 Self::with_r(op, r)
             }
             "itnext" => {
